@@ -639,7 +639,7 @@ def load_corpus():
 def run(chk):
     quick = chk.tier == 'quick'
     stats = new_stats()
-    chk.prove('Supv.Props.C06', extra_targets=['drv_c06'])
+    chk.prove('Supv.Props.C06', extra_targets=['drv_c06', 'drv_cmd'])
     # corpus first
     batch = [(cfg, ops, run_ops(cfg, ops)) for cfg, ops in load_corpus()]
     process_worlds(chk, batch, stats)
@@ -661,6 +661,14 @@ def run(chk):
         if len(batch) >= 5000:
             process_worlds(chk, batch, stats, do_shrink=False); batch = []
     process_worlds(chk, batch, stats, do_shrink=False)
+    # which processes are handed over: the set `Context.invalidate_failed` returns and the commanders leave (one or TWO instances lost in
+    # the same evaluation) is an observable of the commander lock-step (`lose` operations of harness/cmdh.py, printed `failed=[..]`)
+    import cmdh
+    lost_ops = 0; cases = 0
+    for r in cmdh.run_cases(chk, derive_seeds(chk.seed + 606, 500 if quick else 8000)):
+        cases += 1; lost_ops += sum(1 for l in r['lines'] if ' lose ' in l)
+        if r['diff']: chk.disagree('Cmd', dict(case_seed=r['seed'], gen=r.get('gen'), **r['diff']))
+    stats['commander_cases'] = cases; stats['commander_lose_operations'] = lost_ops
     anchored = None
     if not quick:
         anchored = anchored_coverage(chk.seed)
